@@ -61,13 +61,14 @@ struct Ctx;
 long free_conv_ctx(long &x, Ctx *c);
 struct Ctx {
     long add = 7;
+    bool leave = false;       // the promise-taking converters return without resolving, moving or re-arming the promise: the outer future must end as a broken promise, not stay pending
     long member(long &x) { dsim::cell_add(CONV_CALLS, 1); if (x == SRC + 13) throw vs::TestError(4444); return x + add; }
-    cocls::suspend_point<void> member_p(long &x, cocls::promise<long> &p) { dsim::cell_add(CONV_CALLS, 1); if (x == SRC + 13) throw vs::TestError(4444); return p(x + 2 * add); }
+    cocls::suspend_point<void> member_p(long &x, cocls::promise<long> &p) { dsim::cell_add(CONV_CALLS, 1); if (x == SRC + 13) throw vs::TestError(4444); if (leave) return {}; return p(x + 2 * add); }
     long from_void() { dsim::cell_add(CONV_CALLS, 1); return 99; }
     long seen = -1;                                                              // what the value-less converters were handed
     void member_void(long &x) { dsim::cell_add(CONV_CALLS, 1); if (x == SRC + 13) throw vs::TestError(4444); seen = x; }
     void from_void_void() { dsim::cell_add(CONV_CALLS, 1); seen = 98; }
-    cocls::suspend_point<void> from_void_p(cocls::promise<long> &p) { dsim::cell_add(CONV_CALLS, 1); return p(97L); }
+    cocls::suspend_point<void> from_void_p(cocls::promise<long> &p) { dsim::cell_add(CONV_CALLS, 1); if (leave) return {}; return p(97L); }
     cocls::future_conv<&Ctx::member> c_member{this};
     cocls::future_conv<&Ctx::member_p> c_member_p{this};
     cocls::future_conv<&free_conv> c_free;
@@ -94,10 +95,12 @@ void dsim_scenario() {
     bool rival = dsim::flip();
     int outcome[2], timing[2]; long val[2];
     for (int i = 0; i < nops; i++) { outcome[i] = dsim::choose(3); timing[i] = dsim::choose(3); val[i] = SRC + (dsim::choose(6) == 5 ? 13 : i + 1); }
-    dsim::plan_note("adapter=%d ops=%d", adapter, nops);
+    bool leave_promise = dsim::choose(3) == 0;
+    dsim::plan_note("adapter=%d ops=%d leave_promise=%d", adapter, nops, (int)leave_promise);
     for (int i = 0; i < nops; i++) dsim::plan_note(" [outcome%d timing%d val%ld]", outcome[i], timing[i], val[i]);
     {
         CountingStorage cstor; cocls::reusable_storage rstor; Ctx ctx; Handler handler; std::size_t stack_state = 0;
+        ctx.leave = leave_promise;
         for (int i = 0; i < nops; i++) {
             Source src; src.outcome = outcome[i]; src.timing = timing[i]; src.val = val[i];
             int exp_outcome = outcome[i]; long exp_val = val[i];
@@ -170,7 +173,7 @@ void dsim_scenario() {
                 src.finish();
                 out.sync();
                 classify(i, [&] { return out.value(); });
-                if (exp_outcome == O_VALUE) { if (exp_val == SRC + 13) { exp_outcome = O_EXC; exp_val = 4444; } else exp_val = adapter == 6 ? exp_val + 7 : adapter == 7 ? exp_val + 14 : adapter == 8 ? exp_val * 2 : exp_val - 7; }
+                if (exp_outcome == O_VALUE) { if (exp_val == SRC + 13) { exp_outcome = O_EXC; exp_val = 4444; } else if (adapter == 7 && leave_promise) exp_outcome = O_DROP; else exp_val = adapter == 6 ? exp_val + 7 : adapter == 7 ? exp_val + 14 : adapter == 8 ? exp_val * 2 : exp_val - 7; }
                 else if (exp_outcome == O_DROP) { /* broken promise of the source surfaces as await_canceled_exception */ }
                 break; }
             case 15: {  // the two-step form: conv(std::move(promise)) << source
@@ -209,7 +212,7 @@ void dsim_scenario() {
                     if (adapter == 10) out << [&] { return ctx.c_from_void << vsrc; }; else out << [&] { return ctx.c_from_void_p << vsrc; };
                     finish_v(); out.sync();
                     classify(i, [&] { return out.value(); });
-                    if (exp_outcome == O_VALUE) exp_val = adapter == 10 ? 99 : 97;
+                    if (exp_outcome == O_VALUE) { if (adapter == 18 && leave_promise) exp_outcome = O_DROP; else exp_val = adapter == 10 ? 99 : 97; }
                 }
                 break; }
             case 13: case 14: {   // callback_await on a future<void>: await_result<void> is read through get(), operator bool and operator!
